@@ -109,5 +109,9 @@ def run(chk: Check) -> None:
     chk.analysed["shapes"] = len(recs)
     run_roundtrip(chk, recs)
     run_number_text(chk, prog)
+    # contracts of other parts of the library this check takes for granted (summaries, token model, reference grammar):
+    # the clauses that check the source against them, replayed under this property (props/contracts.py)
+    from .contracts import run_contracts
+    run_contracts(chk, prog, ['tokenizer'])
     chk.exhaustive = True
     chk.max_undecided = 0
